@@ -284,7 +284,7 @@ impl<T: Table> ListProvider<T> {
 
     /// Returns true if `domain` is an effective top level domain.
     pub fn is_effective_tld(&self, domain: &str) -> bool {
-        if domain.starts_with('.') || domain.ends_with('.') || domain.contains("..") {
+        if domain.is_empty() || domain.starts_with('.') || domain.ends_with('.') || domain.contains("..") {
             return false;
         }
         let response = self.public_suffix(domain);
